@@ -12,8 +12,11 @@ RULE = ("Engine F pack/unpack lines: pallet source + 1-3 ingredient sources -> c
         "ledger: every object a combiner pushes is a pallet it pulled from its first in-edge, and its items at the moment "
         "of the push are exactly the objects pulled since that pallet, recipe[i] of them from in-edge i; per pallet entering "
         "a splitter the following emissions are each contained item exactly once (pushed or - non-blocking - counted as "
-        "discarded), then the pallet with no items left, and nothing else. Non-trivial: recipe with >= 2 ingredient edges "
-        "and an entry >= 2, and a pallet that had to wait for an ingredient.")
+        "discarded), then the pallet with no items left, and nothing else. A quarter of the cases are circular lines: a "
+        "harness-owned router node (documented edge API only) injects 1-3 pallets and a fixed stock of items and sends every "
+        "pallet / item the splitter emits back to the combiner's pallet / item buffer, so the same pallets are packed, unpacked and "
+        "packed again with the same items. Non-trivial: recipe with >= 2 ingredient edges "
+        "and an entry >= 2, and a pallet that had to wait for an ingredient; or a pallet packed a second time.")
 ASSUMPTIONS = ["non-blocking splitter: 'emits exactly once' is read together with C09 (an item may be discarded instead, counted once)",
                "Buffer edges around combiner/splitter (the node code names Buffer as the supported out-edge type)"]
 
@@ -21,11 +24,47 @@ PROFILE = {"conveyors": False, "pack": 10, "finite": 3}
 
 
 def examples(tier):
-    return 4000 if tier == "quick" else 80000
+    return 8000 if tier == "quick" else 160000
+
+
+def decode_loop(ints):
+    """circular line: router R0 -> (pallet buffer, item buffer) -> combiner -> buffer -> splitter -> buffer(s) -> R0.
+    A fixed population of pallets and items goes round, so every pallet is packed, unpacked and packed again."""
+    g = gen_factory.G(ints)
+    p = dict(gen_factory.DEFAULT_PROFILE)
+    q = g.pick([1, 2, 2, 3])
+    P = g.pick([1, 1, 2, 3])
+    M = max(1, q * P + g.pick([0, 0, 1, 2, -1]))
+    grid = [0, 0.5, 1, 1, 2, 0.3]
+
+    def dl():
+        return gen_factory.delay_spec(g, True, grid)
+
+    def buf(eid, src, dst, cap):
+        return {"id": eid, "kind": "Buffer", "src": src, "dst": dst, "capacity": cap, "mode": g.pick(["FIFO", "FIFO", "LIFO"]),
+                "delay": g.pick([{"kind": "const", "values": [0]}, dl()])}
+    nodes = [{"id": "R0", "type": "Router", "pallets": P, "items": M, "feed_gap": g.pick([0, 0, 0.5, 1]),
+              "waits": [g.pick([0, 0, 0.5, 1, 2]) for _ in range(1 + g.n(3))]},
+             {"id": "C0", "type": "Combiner", "setup": g.pick([0, 0, 1]), "blocking": g.chance(5, 6), "delay": dl(),
+              "recipe": [1, q], "out_sel": g.pick(["FIRST_AVAILABLE", "ROUND_ROBIN"])},
+             {"id": "X0", "type": "Splitter", "setup": g.pick([0, 0, 1]), "blocking": g.chance(5, 6), "delay": dl(),
+              "in_sel": g.pick(["FIRST_AVAILABLE", "ROUND_ROBIN"]), "out_sel": g.pick(["FIRST_AVAILABLE", "ROUND_ROBIN"])}]
+    sq = g.pick([None, None, 1, 2])
+    if sq is not None:
+        nodes[2]["split_quantity"] = sq
+    edges = [buf("E0", "R0", "C0", P + g.n(2)), buf("E1", "R0", "C0", M + g.n(2))]
+    for i in range(g.pick([1, 1, 2])):
+        edges.append(buf("E%d" % len(edges), "C0", "X0", 1 + g.n(3)))
+    for i in range(g.pick([1, 1, 2])):
+        edges.append(buf("E%d" % len(edges), "X0", "R0", 1 + g.n(4)))
+    return {"nodes": nodes, "edges": edges, "shape": "loop", "seed": g.n(1000), "T": g.pick([20.0, 40.0, 60.0])}
 
 
 def strategy(tier):
-    return gen_factory.factories(PROFILE)
+    from hypothesis import strategies as st
+    loops = st.lists(st.integers(0, 65535), min_size=40, max_size=40).map(decode_loop)
+    f = gen_factory.factories(PROFILE)
+    return st.one_of(f, f, f, loops)
 
 
 shrink_candidates = gen_factory.shrink_candidates
@@ -37,6 +76,7 @@ class PackOracle(FOracle):
         self.book = book
         self.pull_snap = {}     # (node, id(pallet)) -> items at the moment the splitter pulled it
         self.waited = False
+        self.repacked = False
 
     def start(self, f):
         self.kinds = {nid: f.node_spec[nid]["type"] for nid in f.nodes}
@@ -69,16 +109,17 @@ class PackOracle(FOracle):
         windows = []
         for (t, k, item, ei, eid) in pulls:
             if ei == 0:
-                windows.append({"pallet": item, "t": t, "ing": []})
+                windows.append({"pallet": item, "t": t, "k": k, "ing": []})
             elif windows:
                 windows[-1]["ing"].append((item, ei, t))
             else:
                 self.res.violate(("Combiner", "recipe", "ingredient_before_pallet"),
                                  "%s pulled %s from in-edge %d before any pallet" % (nid, item.id, ei))
                 return
-        by_pallet = {id(w["pallet"]): w for w in windows}
         for (t, k, obj, oi, eid, snap) in self.book.pushes[nid]:
-            w = by_pallet.get(id(obj))
+            # the same pallet may come round again (circular lines): its latest pull before this push
+            cand = [w_ for w_ in windows if w_["pallet"] is obj and w_["k"] <= k]
+            w = cand[-1] if cand else None
             if w is None or snap is None:
                 self.res.violate(("Combiner", "foreign_pallet"),
                                  "%s pushed %r at t=%s which is not a pallet pulled from its first in-edge" % (nid, obj, t))
@@ -96,6 +137,8 @@ class PackOracle(FOracle):
                 return
             if any(tt > w["t"] for (x, ei, tt) in w["ing"]):
                 self.waited = True
+            if len(cand) >= 2:
+                self.repacked = True
 
     def check_splitter(self, f, nid):
         spec = f.node_spec[nid]
@@ -164,7 +207,9 @@ def run_case(case):
     f.run()
     comb = [n for n in case["nodes"] if n["type"] == "Combiner"]
     rich = any(sum(1 for q in n["recipe"][1:] if q > 0) >= 2 and any(q >= 2 for q in n["recipe"][1:]) for n in comb)
-    res.nontrivial = bool(rich and o.waited)
+    res.nontrivial = bool((rich and o.waited) or o.repacked)
+    if case.get("shape") == "loop":
+        res.classes.append("loop:repacked" if o.repacked else "loop:single_round")
     res.classes += ["recipe:%s" % "-".join(str(q) for q in n["recipe"]) for n in comb][:1]
     res.classes += ["splitter" if any(n["type"] == "Splitter" for n in case["nodes"]) else "no_splitter"]
     if f.crashed or f.build_error:
